@@ -11,7 +11,13 @@ COQ_PREAMBLE = ("Inductive lcase := CMgm (c : M_Mgm.case) | CDsa (c : M_Dsa.dcas
                 "| CDsa x => M_Dsa.dcheck_case x | CMgm2 x => M_Mgm2.check_case2 x end.")
 OBLIGATIONS = ["mgm_no_reentrancy_partial", "mgm_isolated_finishes", "dsa_isolated_finishes",
                "mgm2_isolated_finishes", "mgm_finished_at_stop_partial", "dsa_finished_at_stop_partial",
-               "dsa_stopped_silent_partial"]
+               "dsa_stopped_silent_partial",
+               # deepening (P_Mgm3*.v): the full MGM statement for every schedule
+               "mgm_barrier_invariant", "mgm_neighbours_one_phase_apart", "mgm_trace_ok", "mgm_terminates_k",
+               "mgm_no_deadlock",
+               # deepening (P_Dsa3.v): the full DSA statement for every schedule
+               "dsa_barrier_invariant", "dsa_neighbours_one_cycle_apart", "dsa_trace_ok", "dsa_terminates_k",
+               "dsa_no_deadlock"]
 N_QUICK, N_THOROUGH = 300, 6000
 PARALLEL = 8
 SHARD = 60
@@ -29,15 +35,25 @@ MODELLED = ("modelled: all message handlers of MgmComputation, DsaComputation an
             "event trace (value selections with cost and cycle, new cycles, finished, raises), every node's final "
             "internal state, every channel's content, the neighbour sets. theorems: MGM no re-entrant postponed "
             "processing under EVERY schedule, isolated variables finish at start (3 algorithms), finished only at "
-            "stop_cycle and silent afterwards (local). NOT a theorem: the global barrier invariant (finished "
-            "exactly once with cycle k, quiescent => all finished) - checked by the oracle on every run")
+            "stop_cycle and silent afterwards (local). MGM (P_Mgm3*.v): the global barrier invariant, finished "
+            "exactly once with cycle counter k, quiescent => all finished and nothing held, no deadlock, no error "
+            "event, for EVERY schedule (theorems mgm_barrier_invariant, mgm_terminates_k, mgm_no_deadlock, "
+            "mgm_trace_ok); DSA (P_Dsa3.v): the same (dsa_barrier_invariant, dsa_terminates_k, dsa_no_deadlock, "
+            "dsa_trace_ok). NOT a theorem for MGM2: its global barrier invariant - checked by the "
+            "oracle on every run")
 META = dict(
-    level_text=("Partial proof (Coq). Proved for all DCOPs, oracles and ALL schedules of starts and FIFO deliveries: "
+    level_text=("Partial proof (Coq). MGM and DSA: FULL statement proved for all DCOPs, stop_cycle k > 0, oracles and ALL "
+                "schedules of starts and per-channel-FIFO deliveries (theorems mgm_/dsa_terminates_k, mgm_/dsa_no_deadlock, "
+                "mgm_/dsa_trace_ok over the global barrier invariants mgm_/dsa_barrier_invariant; DSA for every variant and probability): no handler error, every "
+                "computation reports finished exactly once with cycle counter k (0 without neighbour) in every "
+                "execution that ends with all computations started and no message in flight, and before that "
+                "some message is always in flight (nobody waits for ever). "
+                "MGM2 remains partial. Also proved for all DCOPs, oracles and ALL schedules of starts and FIFO deliveries: "
                 "the MGM handlers never process a postponed list re-entrantly and keep the postponed lists "
                 "consistent with the waiting state; proved locally for MGM, DSA, MGM2: a variable without neighbour "
                 "selects a value, reports finished once at start and sends nothing; finished() is only reported "
                 "when the cycle counter has reached stop_cycle > 0 and then nothing is sent; a finished DSA "
-                "computation stays silent. NOT proved: the global barrier invariant that gives 'finished exactly "
+                "computation stays silent. NOT proved for MGM2: the global barrier invariant that gives 'finished exactly "
                 "once with cycle counter k' and 'no computation left waiting' for every schedule; that part is "
                 "checked on every run by replaying seeded FIFO schedules on the real computations against the "
                 "executable models (whole event trace, final states, channels) and by an independent oracle."),
